@@ -54,6 +54,8 @@ def _ctl():
 
 
 def real(name):
+    if not _installed:
+        install()
     return _real[name]
 
 
